@@ -12,24 +12,29 @@
 (***************************************************************************)
 EXTENDS TraceBase
 
-VARIABLES tl, tBad, tCnt, base
+VARIABLES tl, tBad, tCnt, base, seen
 
-Classes == {"base", "call", "frame_key", "frame_table", "frame_other", "init", "race_build", "many_goroutines"}
+Classes == {"base", "call", "fresh_token", "frame_key", "frame_table", "frame_other", "init", "race_build", "many_goroutines"}
 
 IsStateful(ev) == TRUE
+
+(* results that depend on fresh system randomness carry a token (a nonce's r, a key fingerprint) that must never repeat *)
+FreshOK(ev) == ~Has(ev, "fresh") \/ ev.fresh = "" \/ ev.fresh \notin seen
+FreshCls(ev) == IF Has(ev, "fresh") /\ ev.fresh # "" THEN {"fresh_token"} ELSE {}
+Seen(ev) == IF Has(ev, "fresh") /\ ev.fresh # "" THEN seen \cup {ev.fresh} ELSE seen
 
 (* <<ok, classes, base'>> *)
 V(ev) ==
   CASE ev.ev = "lib.Unexpected" -> << FALSE, {}, base >>       \* a call that must succeed failed or panicked
-    [] ev.ev = "conc.Base" -> LET k == <<ev.op, ev.arg>> IN << k \notin DOMAIN base, {"base"}, base @@ (k :> ev.out) >>
-    [] ev.ev = "conc.Call" -> LET k == <<ev.op, ev.arg>> IN << k \in DOMAIN base /\ base[k] = ev.out, {"call"}, base >>
+    [] ev.ev = "conc.Base" -> LET k == <<ev.op, ev.arg>> IN << k \notin DOMAIN base /\ FreshOK(ev), {"base"} \cup FreshCls(ev), base @@ (k :> ev.out) >>
+    [] ev.ev = "conc.Call" -> LET k == <<ev.op, ev.arg>> IN << k \in DOMAIN base /\ base[k] = ev.out /\ FreshOK(ev), {"call"} \cup FreshCls(ev), base >>
     [] ev.ev = "conc.Frame" -> << ev.same /\ ev.before = ev.after,
                                   IF ev.obj \in {"priv", "pub", "peer", "spriv", "spub"} THEN {"frame_key"}
                                   ELSE IF ev.obj \in {"table0", "table1"} THEN {"frame_table"} ELSE {"frame_other"}, base >>
     [] ev.ev = "conc.Init" -> << ev.out = ev.seq, {"init"}, base >>
     [] ev.ev = "conc.Done" -> << ev.calls > 0, (IF ev.race_build THEN {"race_build"} ELSE {}) \cup (IF ev.goroutines >= 16 THEN {"many_goroutines"} ELSE {}), base >>
 
-Init == tl = 1 /\ tBad = 0 /\ tCnt = [k \in Classes \cup {"_any"} |-> 0] /\ base = <<>>
+Init == tl = 1 /\ tBad = 0 /\ tCnt = [k \in Classes \cup {"_any"} |-> 0] /\ base = <<>> /\ seen = {}
 
 Step ==
   /\ tl <= NLog
@@ -38,10 +43,11 @@ Step ==
      /\ (IF v[1] THEN TRUE ELSE Mismatch(tl, ev))
      /\ tCnt' = BumpAll(tCnt, v[2])
      /\ base' = v[3]
+     /\ seen' = Seen(ev)
   /\ tl' = tl + 1
 
-Finish == tl = NLog + 1 /\ Done(tl, tBad, tCnt) /\ tl' = tl + 1 /\ UNCHANGED <<tBad, tCnt, base>>
+Finish == tl = NLog + 1 /\ Done(tl, tBad, tCnt) /\ tl' = tl + 1 /\ UNCHANGED <<tBad, tCnt, base, seen>>
 
 Next == Step \/ Finish
-Spec == Init /\ [][Next]_<<tl, tBad, tCnt, base>>
+Spec == Init /\ [][Next]_<<tl, tBad, tCnt, base, seen>>
 =============================================================================
